@@ -45,6 +45,12 @@ def plan(tier, seed):
         groups.append([{"kind": "weights", "values": list(a), "deep": deep} for a in assigns[k:k + 16]])
     gm = [[1, 1, 1], [3, 2, 2], [2, 5, 3], [1, 4, 9]] + ([[2, 2, 2], [9, 1, 1], [1, 9, 1], [4, 4, 3], [7, 5, 2], [16, 1, 3]] if tier != "quick" else [])
     groups.append([{"kind": "geometry", "xtal": n, "mesh": m} for n in GEO_LATTICES for m in gm])
+    # lattice family: every lower-triangular lattice with diagonal from {1,1.3,2.1} and off-diagonals from {-0.6,0,0.45}
+    # (729 lattices, most with a non-symmetric reciprocal matrix) x meshes
+    fam = [{"kind": "geometry", "lat": [[a, 0, 0], [d, b, 0], [e, f, c_]], "mesh": m}
+           for a, b, c_ in itertools.product((1.0, 1.3, 2.1), repeat=3) for d, e, f in itertools.product((-0.6, 0.0, 0.45), repeat=3)
+           for m in (gm if tier != "quick" else [[1, 1, 1], [3, 2, 2], [1, 4, 9]])]
+    groups += [fam[k:k + 150] for k in range(0, len(fam), 150)]
     groups.append([{"kind": "field", "xtal": n, "fieldseed": k} for n in GEO_LATTICES for k in range(16 if tier != "quick" else 4)])
     xt = ["NaCl-prim-2", "hcp-2", "tri-P1-3", "rhomb-prim-2", "mono-P21-2", "bct-conv-2"]
     meshes = [[3, 3, 3], [4, 3, 2], [2, 2, 5]] if tier == "quick" else [[3, 3, 3], [4, 3, 2], [2, 2, 5], [5, 5, 5], [4, 4, 4], [1, 1, 7], [6, 2, 3], [7, 7, 7]]
@@ -169,7 +175,8 @@ def run_weights(case, seed):
 def run_geometry(case, seed):
     from phonopy.structure.tetrahedron_method import TetrahedronMethod, get_all_tetrahedra_relative_grid_address
 
-    c = phx.xtal(case["xtal"])
+    c = phx.xtal(case["xtal"]) if "xtal" in case else {"lattice": case["lat"]}
+    case = dict(case, xtal=case.get("xtal", "lattice %s" % case.get("lat")))
     rec = np.linalg.inv(np.array(c["lattice"], float))  # columns a*, b*, c*
     mesh = case["mesh"]
     micro = rec / np.array(mesh, float)
